@@ -222,7 +222,18 @@ def real_file_only(chk: Check, sc: Scratch) -> None:
     t2.file("run.sh", b"#!/bin/sh\necho OUTSIDE-SCRIPT-RAN\n", mode=0o755)
     t2.file("mod.pyg", b"raise SystemError('outside pyg imported')\n", mode=0o755)
     t2.materialize(outside)
-    site = driver.Site(root, handlers=driver.HANDLERS_FULL)
+    for order, hl in (("sample-order", driver.HANDLERS_FULL), ("archives-first", HANDLERS_ZIP_FIRST)):
+        chk.count("real_file_only_handler_order:" + order)
+        _real_file_only_requests(chk, root, outside, hl, z, mbox)
+
+
+# the full list with the archive handler moved to the front (a site where archives take precedence): below an
+# archive every other handler is then consulted with the archive's file system, never with the real one
+HANDLERS_ZIP_FIRST = "[ZIP.ZIPHandler, " + driver.HANDLERS_FULL.replace("ZIP.ZIPHandler, ", "").lstrip("[")
+
+
+def _real_file_only_requests(chk: Check, root: str, outside: str, handlers: str, z: Tree, mbox: bytes) -> None:
+    site = driver.Site(root, handlers=handlers)
     cwd = os.getcwd()
     os.chdir(outside)
     try:
